@@ -349,6 +349,10 @@ pid_t fork(void)
 		return -1;
 	}
 	sxm_run_atfork(0);
+	/* the prepare handlers have run, the parent handlers have not: other threads run meanwhile
+	 * (glibc does not serialise the handlers of concurrent forks) */
+	if (sx_nthreads() > 1)
+		sx_sched();
 	pid = p_new_child();
 	if (sx_choose(2) == 1) {
 		/* child copy of the world */
